@@ -104,6 +104,16 @@ seq_t dtw_distance(seq_t *s1, idx_t l1,
     #ifdef DTWDEBUG
     printf("r=%zu, c=%zu\n", l1, l2);
     #endif
+    if (l1 > l2) {
+        ldiff = l1 - l2;
+        dl = ldiff;
+    } else {
+        ldiff  = l2 - l1;
+        dl = 0;
+    }
+    if (settings->max_length_diff != 0 && ldiff > settings->max_length_diff) {
+        return INFINITY;
+    }
     if (settings->use_pruning || settings->only_ub) {
         if (settings->only_ub) {
             return ub_euclidean(s1, l1, s2, l2);
@@ -114,16 +124,6 @@ seq_t dtw_distance(seq_t *s1, idx_t l1,
         max_dist = INFINITY;
     } else {
         max_dist = pow(max_dist, 2);
-    }
-    if (l1 > l2) {
-        ldiff = l1 - l2;
-        dl = ldiff;
-    } else {
-        ldiff  = l2 - l1;
-        dl = 0;
-    }
-    if (settings->max_length_diff != 0 && ldiff > settings->max_length_diff) {
-        return INFINITY;
     }
     if (window == 0) {
         window = MAX(l1, l2);
@@ -341,6 +341,16 @@ seq_t dtw_distance_ndim(seq_t *s1, idx_t l1,
     #ifdef DTWDEBUG
     printf("r=%zu, c=%zu\n", l1, l2);
     #endif
+    if (l1 > l2) {
+        ldiff = l1 - l2;
+        dl = ldiff;
+    } else {
+        ldiff  = l2 - l1;
+        dl = 0;
+    }
+    if (settings->max_length_diff != 0 && ldiff > settings->max_length_diff) {
+        return INFINITY;
+    }
     if (settings->use_pruning || settings->only_ub) {
         if (settings->only_ub) {
             return ub_euclidean_ndim(s1, l1, s2, l2, ndim);
@@ -351,16 +361,6 @@ seq_t dtw_distance_ndim(seq_t *s1, idx_t l1,
         max_dist = INFINITY;
     } else {
         max_dist = pow(max_dist, 2);
-    }
-    if (l1 > l2) {
-        ldiff = l1 - l2;
-        dl = ldiff;
-    } else {
-        ldiff  = l2 - l1;
-        dl = 0;
-    }
-    if (settings->max_length_diff != 0 && ldiff > settings->max_length_diff) {
-        return INFINITY;
     }
     if (window == 0) {
         window = MAX(l1, l2);
@@ -581,14 +581,6 @@ seq_t dtw_distance_euclidean(seq_t *s1, idx_t l1,
     #ifdef DTWDEBUG
     printf("r=%zu, c=%zu\n", l1, l2);
     #endif
-    if (settings->use_pruning || settings->only_ub) {
-        max_dist = ub_euclidean_euclidean(s1, l1, s2, l2);
-        if (settings->only_ub) {
-            return max_dist;
-        }
-    } else if (max_dist == 0) {
-        max_dist = INFINITY;
-    }
     if (l1 > l2) {
         ldiff = l1 - l2;
         dl = ldiff;
@@ -598,6 +590,14 @@ seq_t dtw_distance_euclidean(seq_t *s1, idx_t l1,
     }
     if (settings->max_length_diff != 0 && ldiff > settings->max_length_diff) {
         return INFINITY;
+    }
+    if (settings->use_pruning || settings->only_ub) {
+        max_dist = ub_euclidean_euclidean(s1, l1, s2, l2);
+        if (settings->only_ub) {
+            return max_dist;
+        }
+    } else if (max_dist == 0) {
+        max_dist = INFINITY;
     }
     if (window == 0) {
         window = MAX(l1, l2);
@@ -809,14 +809,6 @@ seq_t dtw_distance_ndim_euclidean(seq_t *s1, idx_t l1,
     #ifdef DTWDEBUG
     printf("r=%zu, c=%zu\n", l1, l2);
     #endif
-    if (settings->use_pruning || settings->only_ub) {
-        max_dist = ub_euclidean_ndim_euclidean(s1, l1, s2, l2, ndim);
-        if (settings->only_ub) {
-            return max_dist;
-        }
-    } else if (max_dist == 0) {
-        max_dist = INFINITY;
-    }
     if (l1 > l2) {
         ldiff = l1 - l2;
         dl = ldiff;
@@ -826,6 +818,14 @@ seq_t dtw_distance_ndim_euclidean(seq_t *s1, idx_t l1,
     }
     if (settings->max_length_diff != 0 && ldiff > settings->max_length_diff) {
         return INFINITY;
+    }
+    if (settings->use_pruning || settings->only_ub) {
+        max_dist = ub_euclidean_ndim_euclidean(s1, l1, s2, l2, ndim);
+        if (settings->only_ub) {
+            return max_dist;
+        }
+    } else if (max_dist == 0) {
+        max_dist = INFINITY;
     }
     if (window == 0) {
         window = MAX(l1, l2);
